@@ -1500,6 +1500,14 @@ def c16_programs(tier, sd):
     out.append({"tag": "fault_unsat_debug", "desc": "unsatisfiable calls with solve_fail_debug (diagnostics path)", "prog": pr, "world": [["p", "obj", "Probe"]],
                 "ops": [["randomize", ["p"]], ["randomize_with", ["p"], unsat if False else [E(["==", a, lit(1)]), E(["==", a, lit(2)])], dbg], ["randomize", ["p"]],
                         ["randomize_with", ["p"], [E([">", F("l", 0), lit(60)])], dbg], ["randomize", ["p"], dbg], ["randomize", ["p"]]] + tail})
+    # an unsatisfiable core of five constraints (more than the diagnostics' subset search tries), with and without diagnostics
+    ch = [fld(x, ("u", 8)) for x in "vwxyz"]
+    Chain = {"name": "Chain", "fields": ch, "blocks": [["k%d" % i, "c", [E(["<", F("vwxyz"[i]), F("vwxyz"[(i + 1) % 5])])]] for i in range(5)]}
+    for dv in (1, 2):
+        out.append({"tag": "fault_unsat_debug", "desc": "five-constraint unsatisfiable core, solve_fail_debug=%d" % dv, "prog": {"enums": {}, "classes": [Chain]},
+                    "world": [["q", "obj", "Chain"]],
+                    "ops": [["randomize", ["q"]], ["randomize", ["q"], {"solve_fail_debug": dv}], ["cmode", ["q"], "k4", False], ["randomize", ["q"]], ["cmode", ["q"], "k4", True],
+                            ["randomize", ["q"], {"solve_fail_debug": dv}], ["randomize", ["q"], {"solve_fail_debug": dv}], ["cmode", ["q"], "k2", False], ["randomize", ["q"], {"solve_fail_debug": dv}]]})
     out.append({"tag": "fault_unsat", "desc": "unsatisfiable calls interleaved", "prog": pr, "world": [["p", "obj", "Probe"]],
                 "ops": [["randomize_with", ["p"], unsat], ["randomize", ["p"]], ["randomize_with", ["p"], unsat], ["list_append", ["p", "l"], 0],
                         ["randomize_with", ["p"], unsat], ["randomize", ["p"]]] + tail})
@@ -1524,6 +1532,16 @@ def c16_programs(tier, sd):
                 "ops": [["randomize_with", ["top"], il_soft], ["randomize_with", ["top"], il_soft], ["randomize_with", ["top"], unsat2], ["randomize_with", ["top"], il_soft],
                         ["randomize_with", ["top"], unsat2], ["randomize_with", ["top"], unsat2], ["randomize_with", ["top"], il_soft], ["randomize", ["top"]],
                         ["randomize_with", ["top"], il_soft]]})
+    # dist / foreach inside a dynamic block referenced from randomize_with: the per-call expansions are rolled back afterwards
+    DDc = {"name": "DDc", "fields": [fld("a", ("u", 8)), fld("b", ("u", 8)), ["l", "list", ["u", 8], 2, True, False]],
+           "blocks": [["cb", "c", [E(["<", F("b"), lit(200)])]],
+                      ["dd", "dyn", [["dist", F("a"), [[lit(1), 1], [["rng", lit(10), lit(12)], 2], [lit(40), 0]]]]],
+                      ["df", "dyn", [["foreach", ["l"], "i", [E(["<", ["it", "i"], lit(9)])]]]]]}
+    out.append({"tag": "fault_dyn_dist", "desc": "dist / foreach inside dynamic blocks, referenced and not, failing and succeeding calls", "prog": {"enums": {}, "classes": [DDc]},
+                "world": [["top", "obj", "DDc"]],
+                "ops": [["randomize_with", ["top"], [E(["dyn", "dd"])]], ["randomize", ["top"]], ["randomize_with", ["top"], [E(["dyn", "df"])]], ["list_append", ["top", "l"], 0],
+                        ["randomize_with", ["top"], [E(["dyn", "df"]), E(["dyn", "dd"])]], ["randomize_with", ["top"], [E(["dyn", "dd"]), E(["==", F("a"), lit(40)])]],
+                        ["randomize", ["top"]], ["randomize_with", ["top"], [E(["dyn", "dd"])]]]})
     # failing calls on objects whose constraints reach fields only through dynamic blocks of list elements (solver handles!)
     out += [dict(p, tag="fault_" + p["tag"]) for p in c06_programs(tier, sd) if p["tag"] == "inline_fail"]
     # seeded mixtures
@@ -1941,6 +1959,15 @@ def _more_c04(tier):
         out.append({"tag": "randsz_obj:two_lists", "desc": "two random-size object lists (%d,%d objects; size bounds %d,%d)" % (n1, n2, b1, b2),
                     "prog": {"enums": {}, "classes": [Item, Top]}, "world": [["top", "obj", "Top"]],
                     "ops": [["randomize", ["top"]], ["randomize", ["top"]], ["randomize_with", ["top"], [E([">=", ["size", ["p"]], lit(1)])]], ["randomize", ["top"]]]})
+    # random-size scalar lists owned by the elements of a list of objects (and by a directly nested object)
+    ItemR = {"name": "ItemR", "fields": [fld("x", ("u", 8)), ["v", "list", ["u", 8], 0, True, True]],
+             "blocks": [["ib", "c", [E(["in", ["size", ["v"]], [["rng", lit(1), lit(3)]]]), ["foreach", ["v"], "j", [E(["<", ["it", "j"], lit(10)])]]]]]}
+    TopR = {"name": "Top", "fields": [["items", "list", ["obj", "ItemR"], 2, True, False], ["one", "obj", "ItemR", True], fld("a", ("u", 8))],
+            "blocks": [["tb", "c", [E(["<", F("a"), lit(50)])]]]}
+    out.append({"tag": "obj_list:nested_randsz", "desc": "random-size scalar lists inside the elements of an object list", "prog": {"enums": {}, "classes": [ItemR, TopR]},
+                "world": [["top", "obj", "Top"]],
+                "ops": [["randomize", ["top"]], ["randomize", ["top"]], ["list_append", ["top", "items"], 0], ["randomize", ["top"]],
+                        ["randomize_with", ["top"], [E([">", F("a"), lit(3)])]], ["vsc_randomize", [["top", "items", 0]]]]})
     # nested foreach: inner lists of different lengths
     Top = {"name": "Top", "fields": [["items", "list", ["obj", "Item"], 3, True, False], fld("a", ("u", 8))],
            "blocks": [["tb", "c", [["foreach", ["items"], "i", [["foreach", [["itv", "i"], "arr"], "j", [E(["<", ["it", "j"], lit(9)]), E(["!=", ["it", "j"], ["idx", "i"]])]]]]]]]}
